@@ -418,12 +418,12 @@ EXPLANATION = (
     'header comment, per entry any interleaving of # / #. / #: / #, / #| lines with #| "..." continuations and noise lines, msgctxt? msgid (msgstr | msgid_plural msgstr[0..N<=9]) '
     'behind #~ or not, cuts anywhere between characters, padding -> polib\'s line loop yields exactly header comment and per entry msgctxt, msgid, msgid_plural, msgstr, indexed '
     'plurals, flags, obsolete, previous_*, occurrences, extracted and translator comments, in order); comments_attributed; codecs_open_keeps_body, phys_lines (Codecs.open); '
-    'load_file_partial (decode + Codecs.open + line loop composed, under three decidable side conditions on the concrete file); translated_iff; regex_pins; witnesses of the repaired '
+    'load_spells_file_partial (decode + Codecs.open + line loop composed for every CatalogSp: hypotheses only about the file - it decodes, its lines are body ++ held-back tail, body '
+    'normalises to the spelling) with codecs_open_holds_trailing (noise and first-column comments are held back); translated_iff; regex_pins; witnesses of the repaired '
     'defects (trailing_ignored_comment_witness for ed9c45c, unescape_octal_fix for 9de4551). REFUTED by kernel-evaluated witnesses and recorded as OPEN findings, replayed on the real '
     'loader each run: load_spells_refuted (a continuation cut between the escaped bytes of one character is a syntax error), detect_first_match_refuted (the charset of the first line '
-    'matching polib\'s detect_encoding pattern wins, e.g. a comment). OUTSTANDING: load_spells as one statement about file bytes for every CatalogSp (the side conditions of '
-    'load_file_partial - last body line not held back, trailing lines held back, body normalises to the spelling - are not derived from CatalogSp; detect_encoding on a header spelled on '
-    'one line is tied by the po-detect and end-to-end streams only); the atypical comment form #text is model + stream only; linenum is projected away. polib itself is third-party code '
+    'matching polib\'s detect_encoding pattern wins, e.g. a comment). OUTSTANDING: load_spells with the charset DETECTED rather than given (detect_encoding on a header spelled on '
+    'one line is tied by the po-detect and end-to-end streams only); linenum is projected away. polib itself is third-party code '
     'modelled by hand: its tie is the correspondence (transition table regenerated each run). Excluded spellings: msgstr[N] N>=10, octal above \\377, two string tokens on one line, '
     'translator comments of the first entry (they are the header comment).')
 
